@@ -53,7 +53,22 @@ def lake_build(prop):
     with Lock("lake"):
         r1 = run(["lake", "build", "stdrv"], cwd=LEAN)
         r2 = run(["lake", "build", "StVerif.Props." + prop], cwd=LEAN)
-    return r1.returncode == 0, r2.returncode == 0, (r1.stdout[-3000:] + "\n" + r2.stdout[-6000:])
+        # the tie theorems `translated function = model` live in a module of their own (Props/<prop>Tie.lean, importing the
+        # property's module): when a bridge stops checking, the property's other theorems stay built and audited
+        r3 = run(["lake", "build", "StVerif.Props." + prop + "Tie"], cwd=LEAN) if has_tie(prop) else None
+    ok = r2.returncode == 0 and (r3 is None or r3.returncode == 0)
+    return r1.returncode == 0, ok, (r1.stdout[-3000:] + "\n" + r2.stdout[-6000:] + ("\n" + r3.stdout[-6000:] if r3 else ""))
+
+def has_tie(prop):
+    return os.path.exists(os.path.join(LEAN, "StVerif", "Props", prop + "Tie.lean"))
+
+def tie_theorems(prop, theorems):
+    """the registered theorems that are stated in Props/<prop>Tie.lean"""
+    if not has_tie(prop):
+        return []
+    src = strip_lean_comments(open(os.path.join(LEAN, "StVerif", "Props", prop + "Tie.lean")).read())
+    names = set(re.findall(r"^theorem\s+(\S+)", src, re.M))
+    return [t for t in theorems if t.split(".")[-1] in names]
 
 def strip_lean_comments(src):
     out = []; i = 0; depth = 0; n = len(src)
@@ -84,13 +99,18 @@ def audit_sources():
             hits.append("%s: partial def" % os.path.relpath(path, LEAN))
     return hits
 
-def audit_axioms(theorems, prop):
+def audit_axioms(theorems, prop, module=None):
     """#print axioms for each theorem; returns {name: (ok, axioms or error)}"""
     res = {}
     if not theorems:
         return res
+    tie = tie_theorems(prop, theorems)
+    if tie and module is None:
+        res.update(audit_axioms([t for t in theorems if t not in tie], prop, prop))
+        res.update(audit_axioms(tie, prop, prop + "Tie"))
+        return res
     with tempfile.NamedTemporaryFile("w", suffix=".lean", dir=LEAN, delete=False) as f:
-        f.write("import StVerif.Props.%s\n" % prop)
+        f.write("import StVerif.Props.%s\n" % (module or prop))
         for t in theorems:
             f.write("#print axioms %s\n" % t)
         tmp = f.name
@@ -339,7 +359,9 @@ def main():
     if tier == "thorough" and proofs_ok and P.get("leanchecker", True):
         with Lock("lake"):
             r = run(["lake", "env", "leanchecker", "StVerif.Props." + prop], cwd=LEAN)
-        notes.append("leanchecker StVerif.Props.%s rc=%d" % (prop, r.returncode))
+            if r.returncode == 0 and has_tie(prop):
+                r = run(["lake", "env", "leanchecker", "StVerif.Props." + prop + "Tie"], cwd=LEAN)
+        notes.append("leanchecker StVerif.Props.%s%s rc=%d" % (prop, " and StVerif.Props.%sTie" % prop if has_tie(prop) else "", r.returncode))
         if r.returncode != 0:
             failed_thms = failed_thms or ["leanchecker:StVerif.Props." + prop]
             notes.append(r.stdout[-500:])
@@ -526,7 +548,7 @@ def main():
     cov = dict(
         obligations=max(1, len(theorems)), discharged=len(discharged) if theorems else 0,
         theorems={t: dict(ok=ax.get(t, (False,))[0], axioms=ax.get(t, (False, []))[1]) for t in theorems},
-        checker_cmd="cd /verif/lean && lake build StVerif.Props.%s && lake env lean <import StVerif.Props.%s; #print axioms for each theorem>" % (prop, prop) + (" && lake env leanchecker StVerif.Props.%s" % prop if tier == "thorough" else ""),
+        checker_cmd="cd /verif/lean && lake build StVerif.Props.%s && lake env lean <import StVerif.Props.%s; #print axioms for each theorem>" % (prop, prop) + (" (and the same for StVerif.Props.%sTie, the tie theorems)" % prop if has_tie(prop) else "") + (" && lake env leanchecker StVerif.Props.%s" % prop if tier == "thorough" else ""),
         trusted_base=TRUSTED_BASE_COMMON + P.get("trusted_base", []) + (
             ["tools/gen_kernels.py: the translator clang-14 JSON AST -> Lean that regenerates lean/StVerif/Generated/Kernels.lean from $ST_REPO/include on every run "
              "(supported C++ subset, interval-based integer semantics, loads as faulting reads, loops over a fuel argument: DESIGN.md section 14); the bridge theorems "
